@@ -39,3 +39,20 @@ Example mixup_example :
   let es := [Dial (mkId 1 1) 2 (mkId 2 2); Handshake 0; Send 0; Dial (mkId 1 1) 2 (mkId 1 2); Handshake 1; Send 1] in
   length (w_processed (crun es)) = 1%nat.
 Proof. reflexivity. Qed.
+
+(* ---- the connection pool pairs replies with requests (Ident/Pool.v) ----
+   For every sequence of requests through one pool, whatever the peer does (answers in time,
+   answers after the caller's deadline, breaks the connection): a reply that doRPC hands to its
+   caller is the reply to the request that very call wrote.  (A connection on which a request
+   failed is closed, never pooled: pooled connections have nothing outstanding.)  Election safety
+   leans on this: a candidate counts a granted vote for the round in which it reads it. *)
+From Verif Require Import Ident.Pool.
+Theorem pool_replies_paired :
+  forall es tag o res r, In (PRpc tag o, res) (prun pinit es) -> pr_reply res = Some r -> r = tag.
+Proof. exact replies_paired. Qed.
+Print Assumptions pool_replies_paired.
+
+Example pool_run_example :
+  map (fun x => pr_reply (snd x)) (prun pinit [PRpc 1 PAnswered; PRpc 2 PLate; PRpc 3 PAnswered; PRpc 4 PBroken; PRpc 5 PAnswered])
+  = [Some 1; None; Some 3; None; Some 5].
+Proof. reflexivity. Qed.
